@@ -1,5 +1,6 @@
 import IstioModel.Common.Wire
 import IstioModel.C16.Spec
+import IstioModel.C16.Discipline
 
 /-!
 Line-protocol driver for C16 (streams `krt`, `krtf6`).  Input = the *trace* written by
@@ -47,6 +48,8 @@ def parseAtom (t : String) : Option FAtom :=
   | "label" => some .label
   | "nsIndex" => some .nsIndex
   | "valIndex" => some .valIndex
+  | "keys" => some .keys
+  | "objName" => some .objName
   | _ => if t.startsWith "g" then (t.drop 1).toString.toNat?.map FAtom.generic else none
 
 /-- `multi:gate:fetch;fetch` with `fetch = atom+atom`, e.g. `1:0:key+label;selects`. -/
@@ -77,13 +80,11 @@ def ogetD (l : List Obj) (k : Key) : Option Obj := l.find? (fun o => o.key == k)
 def odelD (l : List Obj) (k : Key) : List Obj := l.filter (fun o => o.key != k)
 def osetD (l : List Obj) (o : Obj) : List Obj := o :: odelD l o.key
 
-/-! ### the barrier discipline (see notes/C16.md): keys that moved between parents without a
-    barrier in between are the F6 class -/
+/-! ### the barrier discipline (Discipline.lean: `claimBad / claimAdd / resetClaims`, proved to imply
+    DisjointAtApply): keys that moved between parents without a barrier in between are the F6 class -/
 
 def dedupS (l : List String) : List String :=
   l.foldr (fun x acc => if acc.contains x then acc else x :: acc) []
-
-def claimsOf (T : Transform) (o : Obj) : List Key := if T.multi then dedupS o.outs else []
 
 structure DState where
   T       : Transform := {}
@@ -91,29 +92,36 @@ structure DState where
   flagged : Bool := false
   /-- the observed collection is a second derived collection chained behind the first -/
   chain   : Bool := false
+  /-- where the transformation fetches from: "" the static collection `sec`; "sd" a derived copy of
+      it; "sj" `JoinCollection[sec, sec2]`; "s2" fetches at odd positions go to `sec2` -/
+  secmode : String := ""
   started : Bool := false
   prim    : List Obj := []
   sec     : List Obj := []
+  sec2    : List Obj := []
   /-- per parent: the output keys it has claimed since the last barrier -/
   claimed : AMap (List Key) := []
   /-- keys that changed parent without a barrier in between -/
   unsafeK : List Key := []
+  /-- "sj": fetched keys changed by sec (0) / sec2 (1) since the last barrier, and whether a key was
+      changed by both (finding F10 could then lose or garble the join's events) -/
+  touched : AMap (List Nat) := []
+  unsafeJ : Bool := false
+  /-- the late multi-key index exists -/
+  lateIdx : Bool := false
   /-- subscribers: what they held when they registered -/
   subs    : AMap FinMap := []
-
-def claimedByOther (claimed : AMap (List Key)) (p : Key) (k : Key) : Bool :=
-  claimed.any (fun e => e.1 != p && e.2.contains k)
+  psubs   : AMap FinMap := []
+  dsubs   : AMap FinMap := []
 
 def noteSet (d : DState) (o : Obj) : DState :=
   if !d.started then d else
   let cl := claimsOf d.T o
-  let bad := cl.filter (fun k => claimedByOther d.claimed o.key k && !d.unsafeK.contains k)
-  let old := (AMap.lookup d.claimed o.key).getD []
-  { d with unsafeK := d.unsafeK ++ bad,
-           claimed := AMap.set d.claimed o.key (dedupS (old ++ cl)) }
+  let bad := dedupS ((claimBad d.claimed o.key cl).filter (fun k => !d.unsafeK.contains k))
+  { d with unsafeK := d.unsafeK ++ bad, claimed := claimAdd d.claimed o.key cl }
 
 def barrier (d : DState) : DState :=
-  { d with claimed := d.prim.map (fun o => (o.key, claimsOf d.T o)) }
+  { d with claimed := resetClaims d.T d.prim, touched := [] }
 
 def primSet (d : DState) (o : Obj) : DState :=
   let d' := noteSet d o
@@ -122,6 +130,20 @@ def primSet (d : DState) (o : Obj) : DState :=
 def primReset (d : DState) (objs : List Obj) : DState :=
   let d' := objs.foldl noteSet d
   { d' with prim := objs.foldl osetD [] }
+
+def touchS (d : DState) (k : Key) (i : Nat) : DState :=
+  if !d.started || d.secmode != "sj" then d else
+  let l := (AMap.lookup d.touched k).getD []
+  if l.contains i then d else
+  { d with touched := AMap.set d.touched k (l ++ [i]), unsafeJ := d.unsafeJ || !l.isEmpty }
+
+def renderPairs (l : List (String × String)) : String := ",".intercalate (l.map (fun kv => kv.1 ++ "=" ++ kv.2))
+
+/-- the object token (inverse of `parseObj` on the tokens the harness writes) -/
+def Obj.token (o : Obj) : String :=
+  ";".intercalate [o.ns, o.name, renderPairs o.labels, renderPairs o.sel, ",".intercalate o.outs, o.ref, o.val]
+
+def primContents (d : DState) : FinMap := d.prim.map (fun o => (o.key, o.token))
 
 /-! ### answers -/
 
@@ -146,11 +168,20 @@ def inU (d : DState) (k : Key) : Bool := d.flagged && (d.unsafeK.contains k || k
 /-- `krt.NewCollection(derived, o ↦ o with Val ++ "|c")`: the chained collection's transformation. -/
 def chainMap (m : FinMap) : FinMap := m.map (fun kv => (kv.1, kv.2 ++ "|c"))
 
-def spec (d : DState) : FinMap :=
-  if d.chain then chainMap (specContents d.T d.prim d.sec) else specContents d.T d.prim d.sec
+/-- first collection wins (`JoinCollection[sec, sec2]`) -/
+def mergeFirst (a b : List Obj) : List Obj := a ++ b.filter (fun o => (ogetD a o.key).isNone)
 
-def specLk (d : DState) (ns : String) : FinMap :=
-  if d.chain then chainMap (specLookup d.T d.prim d.sec ns) else specLookup d.T d.prim d.sec ns
+/-- contents of the first-level derived collection -/
+def baseContents (d : DState) : FinMap :=
+  if d.secmode == "sj" then specContents d.T d.prim (mergeFirst d.sec d.sec2)
+  else if d.secmode == "s2" then specContentsAlt d.T d.prim d.sec d.sec2
+  else specContents d.T d.prim d.sec
+
+def spec (d : DState) : FinMap := if d.chain then chainMap (baseContents d) else baseContents d
+
+def specLk (d : DState) (ns : String) : FinMap := (spec d).filter (fun kv => outNs kv.2 == ns)
+
+def specLkF (d : DState) (k : String) : FinMap := (spec d).filter (fun kv => (outFetched kv.2).contains k)
 
 /-- No two current inputs claim the same output key (input-level form of the unique-key contract). -/
 def uniqueClaimsB (T : Transform) (prim : List Obj) : Bool :=
@@ -160,7 +191,7 @@ def uniqueClaimsB (T : Transform) (prim : List Obj) : Bool :=
 /-- `none` = answer normally; `some s` = the case is outside the checked class at this point. -/
 def guard (d : DState) : Option String :=
   if !d.started then some "not-started"
-  else if !d.flagged && !d.unsafeK.isEmpty then some "undisciplined"
+  else if (!d.flagged && !d.unsafeK.isEmpty) || d.unsafeJ then some "undisciplined"
   else if !uniqueClaimsB d.T d.prim then some "ambiguous"
   else none
 
@@ -180,21 +211,72 @@ def stepD (d : DState) (toks : List String) : DState × String :=
   | "case" :: _ :: stream :: t :: rest =>
     match parseTransform t with
     | none => ({}, "bad-op")
-    | some T => ({ T := T, stream := stream, flagged := rest.contains "f6", chain := rest.contains "chain" }, "ok")
+    | some T =>
+      let sm := if rest.contains "sd" then "sd" else if rest.contains "sj" then "sj"
+        else if rest.contains "s2" then "s2" else ""
+      ({ T := T, stream := stream, flagged := rest.contains "f6", chain := rest.contains "chain", secmode := sm }, "ok")
   | ["p.set", o] =>
     match parseObj o with
     | none => (d, "bad-op")
     | some o => (primSet d o, "ok")
+  | ["p.cset", o] =>
+    match parseObj o with
+    | none => (d, "bad-op")
+    | some o => (primSet d o, "ok")
   | ["p.del", k] => ({ d with prim := odelD d.prim k }, "ok")
+  | ["p.delwhere", ns] => ({ d with prim := d.prim.filter (fun o => o.ns != ns) }, "ok")
   | "p.reset" :: os =>
     (primReset d (os.filterMap parseObj), "ok")
   | ["s.set", o] =>
     match parseObj o with
     | none => (d, "bad-op")
-    | some o => ({ d with sec := osetD d.sec o }, "ok")
-  | ["s.del", k] => ({ d with sec := odelD d.sec k }, "ok")
-  | "s.reset" :: os => ({ d with sec := (os.filterMap parseObj).foldl osetD [] }, "ok")
-  | ["start"] => (barrier { d with started := true, unsafeK := [] }, "ok")
+    | some o => let d := touchS d o.key 0; ({ d with sec := osetD d.sec o }, "ok")
+  | ["s.cset", o] =>
+    match parseObj o with
+    | none => (d, "bad-op")
+    | some o => let d := touchS d o.key 0; ({ d with sec := osetD d.sec o }, "ok")
+  | ["s.del", k] => let d := touchS d k 0; ({ d with sec := odelD d.sec k }, "ok")
+  | ["s.delwhere", ns] =>
+    let d := (d.sec.filter (fun o => o.ns == ns)).foldl (fun d o => touchS d o.key 0) d
+    ({ d with sec := d.sec.filter (fun o => o.ns != ns) }, "ok")
+  | "s.reset" :: os =>
+    let objs := os.filterMap parseObj
+    let d := (d.sec ++ objs).foldl (fun d o => touchS d o.key 0) d
+    ({ d with sec := objs.foldl osetD [] }, "ok")
+  | ["t.set", o] =>
+    match parseObj o with
+    | none => (d, "bad-op")
+    | some o => let d := touchS d o.key 1; ({ d with sec2 := osetD d.sec2 o }, "ok")
+  | ["t.del", k] => let d := touchS d k 1; ({ d with sec2 := odelD d.sec2 k }, "ok")
+  | ["start"] => (barrier { d with started := true, unsafeK := [], unsafeJ := false }, "ok")
+  | ["lateindex"] => if d.started then ({ d with lateIdx := true }, "ok") else (d, "ok")
+  | ["flookup", k] =>
+    let d := barrier d
+    (d, "flookup " ++ answer d false (fun d =>
+      if !d.lateIdx then "no-index" else showMap (restrictMap (fun k => !inU d k) (specLkF d k))))
+  | ["psub", name, kind] =>
+    ({ d with psubs := AMap.set d.psubs name (if kind == "nostate" then primContents d else []) }, "ok")
+  | "pstream" :: name :: evs =>
+    let d := barrier d
+    (d, "pstream " ++ match parseEvents evs, AMap.lookup d.psubs name with
+      | some es, some m0 => showVerdict m0 es (primContents d)
+      | none, _ => "reject:malformed-event"
+      | _, none => "unknown-subscriber")
+  | ["dsub", name, kind] =>
+    if !d.started then (d, "ok")
+    else if kind == "nostate" then
+      let d := barrier d
+      ({ d with dsubs := AMap.set d.dsubs name (baseContents d) }, "ok")
+    else ({ d with dsubs := AMap.set d.dsubs name [] }, "ok")
+  | "dstream" :: name :: evs =>
+    let d := barrier d
+    (d, "dstream " ++ answer d false (fun d =>
+      match parseEvents evs, AMap.lookup d.dsubs name with
+      | some es, some m0 =>
+        let p := fun k => !inU d k
+        showVerdict (restrictMap p m0) (restrictStream p es) (restrictMap p (baseContents d))
+      | none, _ => "reject:malformed-event"
+      | _, none => "unknown-subscriber"))
   | ["sync"] => (barrier d, "ok")
   | ["sub", name, kind] =>
     if !d.started then (d, "ok")
